@@ -20,7 +20,11 @@
    Re-synchronised with /repo 79180d8 (0bc7834): the wrapper's three protocol-exception handlers were
    merged into one (same mapping illegal_parameter / decode_error / decrypt_error, plus _shutdown when
    the alert cannot be sent): only the failure-action text of the `checker` row changed; map_exn in the
-   model is unchanged. *)
+   model is unchanged.
+   Extended (round-2 seeded change): every `check` row now carries the PROVENANCE of the local names
+   used in the call, `{name<-binding | binding ...}` = all assignments / loop targets that bind the name
+   before the call in source order, so that rebinding the object a verification receives (e.g. the
+   certificate entry given to DelegatedCredential.verify) changes the table. *)
 From Coq Require Import List String.
 Import ListNotations.
 Open Scope string_scope.
@@ -55,13 +59,13 @@ Definition expected_sites : list (string * string * string * string * string * s
    "delegated_credential = None",
    "", "-");
   ("tlsconnection.py", "TLSConnection._clientTLS13Handshake", "check",
-   "KeyExchange.calcVerifyBytes((3, 4), srv_cert_verify_hh, signature_scheme, None, None, None, prfName, b'server')",
+   "KeyExchange.calcVerifyBytes((3, 4), srv_cert_verify_hh, signature_scheme, None, None, None, prfName, b'server') {srv_cert_verify_hh<-self._handshake_hash.copy(); signature_scheme<-certificate_verify.signatureAlgorithm; prfName<-self._getPRFParams(serverHello.cipher_suite)}",
    "not sr_psk", "-");
   ("tlsconnection.py", "TLSConnection._clientTLS13Handshake", "assign",
    "serverCertChain = result",
    "not sr_psk", "-");
   ("tlsconnection.py", "TLSConnection._clientTLS13Handshake", "check",
-   "cert_ext.delegated_credential.verify(cert_entry, clientHello, certificate_verify)",
+   "cert_ext.delegated_credential.verify(cert_entry, clientHello, certificate_verify) {cert_entry<-certificate.certificate_list[0]; certificate_verify<-result; cert_ext<-None | ext}",
    "not sr_psk && cert_ext", "raise:TLSDecryptionFailed");
   ("tlsconnection.py", "TLSConnection._clientTLS13Handshake", "assign",
    "delegated_credential = cert_ext.delegated_credential",
@@ -70,22 +74,22 @@ Definition expected_sites : list (string * string * string * string * string * s
    "signature_scheme not in offered_ext.sigalgs",
    "not sr_psk && not(cert_ext)", "alert:illegal_parameter");
   ("tlsconnection.py", "TLSConnection._clientTLS13Handshake", "check",
-   "method(certificate_verify.signature, signature_context, pad_type, hash_name, salt_len)",
+   "method(certificate_verify.signature, signature_context, pad_type, hash_name, salt_len) {method<-publicKey.hashAndVerify | publicKey.verify; signature_context<-KeyExchange.calcVerifyBytes((3, 4), srv_cert_verify_hh, s...; pad_type<-None | SignatureScheme.getPadding(scheme); hash_name<-'intrinsic' | HashAlgorithm.toRepr(signature_scheme[0]) | SignatureScheme.getHash(scheme); salt_len<-None | getattr(hashlib, hash_name)().digest_size; certificate_verify<-result; publicKey<-result | delegated_credential.cred.pub_key}",
    "not sr_psk", "raise:TLSDecryptionFailed");
   ("tlsconnection.py", "TLSConnection._clientTLS13Handshake", "compare",
    "finished.verify_data != verify_data",
    "", "raise:TLSDecryptionFailed");
   ("tlsconnection.py", "TLSConnection._clientTLS13Handshake", "check",
-   "KeyExchange.calcVerifyBytes((3, 4), self._handshake_hash, signature_scheme, None, None, None, prfName, b'client')",
+   "KeyExchange.calcVerifyBytes((3, 4), self._handshake_hash, signature_scheme, None, None, None, prfName, b'client') {signature_scheme<-certificate_verify.signatureAlgorithm | delegated_credential.cred.dc_cert_verify_algorithm | getFirstMatching(availSigAlgs, valid_sig_algs) | getattr(SignatureScheme, scheme); prfName<-self._getPRFParams(serverHello.cipher_suite)}",
    "certificate_request && clientCertChain and privateKey", "-");
   ("tlsconnection.py", "TLSConnection._clientTLS13Handshake", "check",
-   "ver_func(signature, signature_context, pad_type, hash_name, salt_len)",
+   "ver_func(signature, signature_context, pad_type, hash_name, salt_len) {ver_func<-privateKey.hashAndVerify | privateKey.verify; signature<-sig_func(signature_context, pad_type, hash_name, salt_len); signature_context<-KeyExchange.calcVerifyBytes((3, 4), srv_cert_verify_hh, s... | KeyExchange.calcVerifyBytes((3, 4), self._handshake_hash,...; pad_type<-None | SignatureScheme.getPadding(scheme); hash_name<-'intrinsic' | HashAlgorithm.toRepr(signature_scheme[0]) | SignatureScheme.getHash(scheme); salt_len<-None | getattr(hashlib, hash_name)().digest_size}",
    "certificate_request && clientCertChain and privateKey", "alert:internal_error");
   ("tlsconnection.py", "TLSConnection._clientTLS13Handshake", "create",
    "self.session.create(srp=None, client=clientCertChain, server=certificate.cert_chain if certificate else None, delegated_credential=delegated_credential)",
    "", "-");
   ("tlsconnection.py", "TLSConnection._clientResume", "check",
-   "self._getFinished(session.masterSecret, session.cipherSuite, expect_new_session_ticket=ticket_announced)",
+   "self._getFinished(session.masterSecret, session.cipherSuite, expect_new_session_ticket=ticket_announced) {ticket_announced<-serverHello.getExtension(ExtensionType.session_ticket) is...}",
    "session and (session.sessionID or session.tls_1_0_tickets) and serverHello.session_id a...", "-");
   ("tlsconnection.py", "TLSConnection._clientKeyExchange", "assign",
    "serverCertChain = None",
@@ -94,13 +98,13 @@ Definition expected_sites : list (string * string * string * string * string * s
    "serverCertChain = result",
    "cipherSuite in CipherSuite.certAllSuites or cipherSuite in CipherSuite.ecdheEcdsaSuites...", "-");
   ("tlsconnection.py", "TLSConnection._clientKeyExchange", "check",
-   "KeyExchange.verifyServerKeyExchange(serverKeyExchange, publicKey, clientRandom, serverRandom, valid_sig_algs)",
+   "KeyExchange.verifyServerKeyExchange(serverKeyExchange, publicKey, clientRandom, serverRandom, valid_sig_algs) {serverKeyExchange<-result | None; publicKey<-None | result; valid_sig_algs<-self._sigHashesToList(settings, certList=serverCertChain)}",
    "cipherSuite in CipherSuite.certAllSuites or cipherSuite in CipherSuite.ecdheEcdsaSuites... && serverKeyExchange", "-|except TLSIllegalParameterException->alert:illegal_parameter;TLSDecryptionFailed->alert:decrypt_error");
   ("tlsconnection.py", "TLSConnection._clientKeyExchange", "assign",
    "clientCertChain = None",
    "not(certificateRequest)", "-");
   ("tlsconnection.py", "TLSConnection._clientFinished", "check",
-   "self._getFinished(masterSecret, cipherSuite, nextProto=nextProto, expect_new_session_ticket=expect_new_session_ticket)",
+   "self._getFinished(masterSecret, cipherSuite, nextProto=nextProto, expect_new_session_ticket=expect_new_session_ticket) {masterSecret<-self._calculate_master_secret(premasterSecret, cipherSuit...}",
    "", "-");
   ("tlsconnection.py", "TLSConnection._handshakeServerAsyncHelper", "assign",
    "clientCertChain = None",
@@ -130,7 +134,7 @@ Definition expected_sites : list (string * string * string * string * string * s
    "resumed_client_cert_chain = ticket.client_cert_chain",
    "psks and (PskKeyExchangeMode.psk_dhe_ke in psk_types.modes or PskKeyExchangeMode.psk_ke... && loop (i, ident) && ticket", "-");
   ("tlsconnection.py", "TLSConnection._serverTLS13Handshake", "check",
-   "HandshakeHelpers.verify_binder(clientHello, self._pre_client_hello_handshake_hash, selected_psk, psk, psk_hash, external)",
+   "HandshakeHelpers.verify_binder(clientHello, self._pre_client_hello_handshake_hash, selected_psk, psk, psk_hash, external) {selected_psk<-None | i; psk<-None | match[0][1]; psk_hash<-match[0][2] if len(match[0]) > 2 else 'sha256'; external<-True | False}",
    "psks and (PskKeyExchangeMode.psk_dhe_ke in psk_types.modes or PskKeyExchangeMode.psk_ke... && loop (i, ident)", "-|except TLSIllegalParameterException->alert:illegal_parameter");
   ("tlsconnection.py", "TLSConnection._serverTLS13Handshake", "assign",
    "delegated_credential = None",
@@ -142,10 +146,10 @@ Definition expected_sites : list (string * string * string * string * string * s
    "delegated_credential = del_cred",
    "selected_psk is None", "-");
   ("tlsconnection.py", "TLSConnection._serverTLS13Handshake", "check",
-   "KeyExchange.calcVerifyBytes((3, 4), self._handshake_hash, signature_scheme, None, None, None, prf_name, b'server')",
+   "KeyExchange.calcVerifyBytes((3, 4), self._handshake_hash, signature_scheme, None, None, None, prf_name, b'server') {signature_scheme<-dc_sig_scheme | getattr(SignatureScheme, scheme); prf_name<-self._getPRFParams(cipherSuite)}",
    "selected_psk is None", "-");
   ("tlsconnection.py", "TLSConnection._serverTLS13Handshake", "check",
-   "ver_func(signature, signature_context, padType, hashName, saltLen)",
+   "ver_func(signature, signature_context, padType, hashName, saltLen) {ver_func<-privateKey.hashAndVerify | privateKey.verify; signature<-sig_func(signature_context, padType, hashName, saltLen); signature_context<-KeyExchange.calcVerifyBytes((3, 4), self._handshake_hash,...; padType<-None | SignatureScheme.getPadding(scheme); hashName<-'intrinsic' | HashAlgorithm.toRepr(signature_scheme[0]) | SignatureScheme.getHash(scheme); saltLen<-None | getattr(hashlib, hashName)().digest_size; privateKey<-dc_key}",
    "selected_psk is None", "alert:internal_error");
   ("tlsconnection.py", "TLSConnection._serverTLS13Handshake", "assign",
    "client_cert_chain = None",
@@ -157,10 +161,10 @@ Definition expected_sites : list (string * string * string * string * string * s
    "signature_scheme not in valid_sig_algs",
    "client_cert_chain and client_cert_chain.getNumCerts()", "alert:illegal_parameter");
   ("tlsconnection.py", "TLSConnection._serverTLS13Handshake", "check",
-   "KeyExchange.calcVerifyBytes((3, 4), cli_cert_verify_hh, signature_scheme, None, None, None, prf_name, b'client')",
+   "KeyExchange.calcVerifyBytes((3, 4), cli_cert_verify_hh, signature_scheme, None, None, None, prf_name, b'client') {cli_cert_verify_hh<-self._handshake_hash.copy(); signature_scheme<-dc_sig_scheme | getattr(SignatureScheme, scheme) | certificate_verify.signatureAlgorithm; prf_name<-self._getPRFParams(cipherSuite)}",
    "client_cert_chain and client_cert_chain.getNumCerts()", "-");
   ("tlsconnection.py", "TLSConnection._serverTLS13Handshake", "check",
-   "ver_func(certificate_verify.signature, signature_context, pad_type, hash_name, salt_len)",
+   "ver_func(certificate_verify.signature, signature_context, pad_type, hash_name, salt_len) {ver_func<-privateKey.hashAndVerify | privateKey.verify | public_key.hashAndVerify | public_key.verify; signature_context<-KeyExchange.calcVerifyBytes((3, 4), self._handshake_hash,... | KeyExchange.calcVerifyBytes((3, 4), cli_cert_verify_hh, s...; pad_type<-None | SignatureScheme.getPadding(scheme); hash_name<-'intrinsic' | HashAlgorithm.toRepr(signature_scheme[0]) | SignatureScheme.getHash(scheme); salt_len<-None | getattr(hashlib, hash_name)().digest_size; certificate_verify<-CertificateVerify(self.version) | result; privateKey<-dc_key; public_key<-result}",
    "client_cert_chain and client_cert_chain.getNumCerts()", "alert:decrypt_error");
   ("tlsconnection.py", "TLSConnection._serverTLS13Handshake", "compare",
    "cl_finished.verify_data != cl_verify_data",
@@ -175,7 +179,7 @@ Definition expected_sites : list (string * string * string * string * string * s
    "session.create(srp='', client=ticket.client_cert_chain, server=None)",
    "", "-");
   ("tlsconnection.py", "TLSConnection._serverGetClientHello", "check",
-   "self._getFinished(session.masterSecret, session.cipherSuite)",
+   "self._getFinished(session.masterSecret, session.cipherSuite) {session<-None | self._ticket_to_session(settings, ticket_ext) | cached | sessionCache[clientHello.session_id]}",
    "clientHello.session_id and sessionCache or (ticket_ext and ticket_ext.ticket) && session", "-");
   ("tlsconnection.py", "TLSConnection._server_select_certificate", "compare",
    "client_sigalgs is not None",
@@ -199,13 +203,13 @@ Definition expected_sites : list (string * string * string * string * string * s
    "certificateVerify.signatureAlgorithm not in valid_sig_algs",
    "clientCertChain && self.version == (3, 3)", "alert:illegal_parameter");
   ("tlsconnection.py", "TLSConnection._serverCertKeyExchange", "check",
-   "KeyExchange.calcVerifyBytes(self.version, cvhh, signatureAlgorithm, premasterSecret, clientHello.random, serverHello.random, key_type=clientCertCha...",
+   "KeyExchange.calcVerifyBytes(self.version, cvhh, signatureAlgorithm, premasterSecret, clientHello.random, serverHello.random, key_type=clientCertCha... {cvhh<-self._certificate_verify_handshake_hash; signatureAlgorithm<-None | certificateVerify.signatureAlgorithm | (HashAlgorithm.sha1, SignatureAlgorithm.ecdsa); premasterSecret<-keyExchange.processClientKeyExchange(clientKeyExchange); clientCertChain<-None | clientCertificate.cert_chain}",
    "clientCertChain", "-");
   ("tlsconnection.py", "TLSConnection._serverCertKeyExchange", "check",
-   "ver_func(certificateVerify.signature, verify_bytes, padding, hash_name, salt_len)",
+   "ver_func(certificateVerify.signature, verify_bytes, padding, hash_name, salt_len) {ver_func<-public_key.hashAndVerify | public_key.verify; verify_bytes<-KeyExchange.calcVerifyBytes(self.version, cvhh, signature... | verify_bytes[:public_key.public_key.curve.baselen]; padding<-None | 'pkcs1' | SignatureScheme.getPadding(scheme); hash_name<-'intrinsic' | HashAlgorithm.toRepr(signatureAlgorithm[0]) | None | SignatureScheme.getHash(scheme) | HashAlgorithm.toStr(signatureAlgorithm[0]); salt_len<-None | 0 | getattr(hashlib, hash_name)().digest_size; certificateVerify<-result; public_key<-result}",
    "clientCertChain", "alert:decrypt_error");
   ("tlsconnection.py", "TLSConnection._serverFinished", "check",
-   "self._getFinished(masterSecret, cipherSuite, expect_next_protocol=nextProtos is not None)",
+   "self._getFinished(masterSecret, cipherSuite, expect_next_protocol=nextProtos is not None) {masterSecret<-self._calculate_master_secret(premasterSecret, cipherSuit...}",
    "", "-");
   ("tlsconnection.py", "TLSConnection._getFinished", "compare",
    "finished.verify_data != verifyData",
@@ -220,10 +224,10 @@ Definition expected_sites : list (string * string * string * string * string * s
    "schemeID in hashAndAlgsExt.sigalgs",
    "loop (certs, key) && loop schemeID", "continue");
   ("tlsrecordlayer.py", "TLSRecordLayer._handle_pha", "check",
-   "KeyExchange.calcVerifyBytes((3, 4), handshake_context, sig_scheme, None, None, None, prf_name, b'client')",
+   "KeyExchange.calcVerifyBytes((3, 4), handshake_context, sig_scheme, None, None, None, prf_name, b'client') {handshake_context<-self._first_handshake_hashes.copy(); sig_scheme<-getFirstMatching(avail_sig_algs, valid_sig_algs) | getattr(SignatureScheme, scheme); prf_name<-'sha256' | 'sha384'}",
    "cert.x509List and p_key", "-");
   ("tlsrecordlayer.py", "TLSRecordLayer._handle_pha", "check",
-   "ver_func(signature, signature_context, pad_type, hash_name, salt_len)",
+   "ver_func(signature, signature_context, pad_type, hash_name, salt_len) {ver_func<-p_key.hashAndVerify | p_key.verify; signature<-sig_func(signature_context, pad_type, hash_name, salt_len); signature_context<-KeyExchange.calcVerifyBytes((3, 4), handshake_context, si...; pad_type<-None | SignatureScheme.getPadding(scheme); hash_name<-'intrinsic' | HashAlgorithm.toRepr(sig_scheme[0]) | SignatureScheme.getHash(scheme); salt_len<-None | getattr(hashlib, hash_name)().digest_size; p_key<-self._client_keypair}",
    "cert.x509List and p_key", "alert:internal_error");
   ("tlsrecordlayer.py", "TLSRecordLayer._handle_srv_pha", "compare",
    "cert_verify.signatureAlgorithm not in valid_sig_algs",
@@ -232,10 +236,10 @@ Definition expected_sites : list (string * string * string * string * string * s
    "cert_verify.signatureAlgorithm not in avail_sig_algs",
    "cert.cert_chain", "alert:illegal_parameter");
   ("tlsrecordlayer.py", "TLSRecordLayer._handle_srv_pha", "check",
-   "KeyExchange.calcVerifyBytes((3, 4), handshake_context, sig_scheme, None, None, None, prf_name, b'client')",
+   "KeyExchange.calcVerifyBytes((3, 4), handshake_context, sig_scheme, None, None, None, prf_name, b'client') {handshake_context<-self._first_handshake_hashes.copy(); sig_scheme<-getattr(SignatureScheme, scheme); prf_name<-'sha256' | 'sha384'}",
    "cert.cert_chain", "-");
   ("tlsrecordlayer.py", "TLSRecordLayer._handle_srv_pha", "check",
-   "ver_func(cert_verify.signature, signature_context, pad_type, hash_name, salt_len)",
+   "ver_func(cert_verify.signature, signature_context, pad_type, hash_name, salt_len) {ver_func<-cert.cert_chain.getEndEntityPublicKey().hashAndVerify | cert.cert_chain.getEndEntityPublicKey().verify; signature_context<-KeyExchange.calcVerifyBytes((3, 4), handshake_context, si...; pad_type<-None | SignatureScheme.getPadding(scheme); hash_name<-'intrinsic' | HashAlgorithm.toRepr(sig_scheme[0]) | SignatureScheme.getHash(scheme); salt_len<-None | getattr(hashlib, hash_name)().digest_size; cert_verify<-result}",
    "cert.cert_chain", "alert:decrypt_error");
   ("tlsrecordlayer.py", "TLSRecordLayer._handle_srv_pha", "compare",
    "finished.verify_data != verify_data",
@@ -244,13 +248,13 @@ Definition expected_sites : list (string * string * string * string * string * s
    "self.session.clientCertChain = cert.cert_chain",
    "", "-");
   ("keyexchange.py", "KeyExchange._tls12_verify_ecdsa_SKE", "check",
-   "publicKey.verify(serverKeyExchange.signature, hashBytes, padding=None, hashAlg=hashName, saltLen=None)",
+   "publicKey.verify(serverKeyExchange.signature, hashBytes, padding=None, hashAlg=hashName, saltLen=None) {hashBytes<-serverKeyExchange.hash(clientRandom, serverRandom) | hashBytes[:publicKey.public_key.curve.baselen]; hashName<-HashAlgorithm.toRepr(serverKeyExchange.hashAlg)}",
    "", "raise:TLSDecryptionFailed");
   ("keyexchange.py", "KeyExchange._tls12_verify_eddsa_ske", "check",
-   "public_key.hashAndVerify(sig_bytes, hash_bytes)",
+   "public_key.hashAndVerify(sig_bytes, hash_bytes) {sig_bytes<-server_key_exchange.signature; hash_bytes<-server_key_exchange.hash(client_random, server_random)}",
    "", "raise:TLSDecryptionFailed");
   ("keyexchange.py", "KeyExchange._tls12_verify_dsa_SKE", "check",
-   "publicKey.verify(serverKeyExchange.signature, hashBytes)",
+   "publicKey.verify(serverKeyExchange.signature, hashBytes) {hashBytes<-serverKeyExchange.hash(clientRandom, serverRandom)}",
    "", "raise:TLSDecryptionFailed");
   ("keyexchange.py", "KeyExchange._tls12_verify_SKE", "check",
    "KeyExchange._tls12_verify_eddsa_ske(serverKeyExchange, publicKey, clientRandom, serverRandom, validSigAlgs)",
@@ -262,10 +266,10 @@ Definition expected_sites : list (string * string * string * string * string * s
    "KeyExchange._tls12_verify_dsa_SKE(serverKeyExchange, publicKey, clientRandom, serverRandom, validSigAlgs)",
    "not(serverKeyExchange.signAlg == SignatureAlgorithm.ecdsa) && serverKeyExchange.signAlg == SignatureAlgorithm.dsa", "-");
   ("keyexchange.py", "KeyExchange._tls12_verify_SKE", "check",
-   "publicKey.verify(sigBytes, hashBytes, padding=padType, hashAlg=hashName, saltLen=saltLen)",
+   "publicKey.verify(sigBytes, hashBytes, padding=padType, hashAlg=hashName, saltLen=saltLen) {sigBytes<-serverKeyExchange.signature; hashBytes<-serverKeyExchange.hash(clientRandom, serverRandom); padType<-SignatureScheme.getPadding(scheme) | 'pkcs1'; hashName<-SignatureScheme.getHash(scheme) | HashAlgorithm.toRepr(serverKeyExchange.hashAlg); saltLen<-getattr(hashlib, hashName)().digest_size | 0}",
    "", "raise:TLSDecryptionFailed");
   ("keyexchange.py", "KeyExchange.verifyServerKeyExchange", "check",
-   "publicKey.verify(sigBytes, hashBytes)",
+   "publicKey.verify(sigBytes, hashBytes) {sigBytes<-serverKeyExchange.signature; hashBytes<-serverKeyExchange.hash(clientRandom, serverRandom)}",
    "serverKeyExchange.version < (3, 3)", "raise:TLSDecryptionFailed");
   ("keyexchange.py", "KeyExchange.verifyServerKeyExchange", "check",
    "KeyExchange._tls12_verify_SKE(serverKeyExchange, publicKey, clientRandom, serverRandom, validSigAlgs)",
@@ -280,19 +284,30 @@ Definition expected_sites : list (string * string * string * string * string * s
    "dc_cert_verify_algorithm != cert_verify.signatureAlgorithm",
    "", "raise:TLSIllegalParameterException");
   ("x509.py", "DelegatedCredential.verify", "check",
-   "DelegatedCredential.compute_certificate_dc_sig_context(certificate.bytes, self.cred.bytes, self.algorithm)",
+   "DelegatedCredential.compute_certificate_dc_sig_context(certificate.bytes, self.cred.bytes, self.algorithm) {certificate<-certificate_entry.certificate}",
    "", "-");
   ("x509.py", "DelegatedCredential.verify", "check",
-   "method(self.signature, sig_context, pad_type, hash_name, salt_len)",
+   "method(self.signature, sig_context, pad_type, hash_name, salt_len) {method<-cert_pub_key.hashAndVerify; sig_context<-DelegatedCredential.compute_certificate_dc_sig_context(ce...; pad_type<-None | SignatureScheme.getPadding(scheme); hash_name<-'intrinsic' | HashAlgorithm.toRepr(sig_scheme[0]) | SignatureScheme.getHash(scheme); salt_len<-None | getattr(hashlib, hash_name)().digest_size; cert_pub_key<-certificate.publicKey}",
    "", "raise:TLSDecryptionFailed");
   ("handshakehelpers.py", "HandshakeHelpers.update_binders", "check",
-   "HandshakeHelpers._calc_binder(binder_hash, psk, hh, external)",
+   "HandshakeHelpers._calc_binder(binder_hash, psk, hh, external) {binder_hash<-'sha256' if len(res_master_secret) == 32 else 'sha384' | config[2] if len(config) > 2 else 'sha256'; psk<-HandshakeHelpers.calc_res_binder_psk(iden, res_master_sec... | config[1]; hh<-handshake_hashes.copy(); external<-False | True}",
    "loop (i, iden)", "-");
   ("handshakehelpers.py", "HandshakeHelpers.verify_binder", "check",
-   "HandshakeHelpers._calc_binder(prf, secret, hh, external)",
+   "HandshakeHelpers._calc_binder(prf, secret, hh, external) {hh<-handshake_hashes.copy()}",
    "", "-");
   ("handshakehelpers.py", "HandshakeHelpers.verify_binder", "check",
-   "ct_compare_digest(binder, ext.binders[position])",
+   "ct_compare_digest(binder, ext.binders[position]) {binder<-HandshakeHelpers._calc_binder(prf, secret, hh, external); ext<-client_hello.extensions[-1]}",
    "", "raise:TLSIllegalParameterException")
 ].
 
+
+Definition row_eqb (a b : string * string * string * string * string * string) : bool :=
+  let '(a1, a2, a3, a4, a5, a6) := a in
+  let '(b1, b2, b3, b4, b5, b6) := b in
+  (String.eqb a1 b1 && String.eqb a2 b2 && String.eqb a3 b3 && String.eqb a4 b4 && String.eqb a5 b5 && String.eqb a6 b6)%bool.
+
+(* the delegated-credential verification must receive entry 0 of the certificate list *)
+Definition dc_verify_row : string * string * string * string * string * string :=
+  ("tlsconnection.py", "TLSConnection._clientTLS13Handshake", "check",
+   "cert_ext.delegated_credential.verify(cert_entry, clientHello, certificate_verify) {cert_entry<-certificate.certificate_list[0]; certificate_verify<-result; cert_ext<-None | ext}",
+   "not sr_psk && cert_ext", "raise:TLSDecryptionFailed").
